@@ -331,6 +331,13 @@ fn main() {
                 Ok(v) => v,
                 Err(e) => json!({"panic": panic_msg(e)}),
             },
+            "tokens" => match catch_unwind(AssertUnwindSafe(|| {
+                let li = x::parser_line::parse_line(&line);
+                json!({"tokens": toks(&li.tokens), "complete": li.is_complete, "arith": x::tools::is_arithmetic(&line)})
+            })) {
+                Ok(v) => v,
+                Err(e) => json!({"panic": panic_msg(e)}),
+            },
             "stages" => stages(&mut sh, &line, false),
             "cheap" => stages(&mut sh, &line, true),
             "calc" => match catch_unwind(AssertUnwindSafe(|| {
